@@ -290,7 +290,7 @@ def main():
         inputs = [int(x) for x in open(os.path.join(rdir, 'inputs.txt')).read().split()]
         ok, whatf, out = replay(q, b, os.path.join(bdir_root, q.name), inputs, rdir, log)
         print(out); print('replay %s: %s' % ('REPRODUCED' if ok else 'did not reproduce', whatf)); sys.exit(1 if ok else 0)
-    qs = [q for q in mod.QUERIES if q.tier == 'quick' or tier == 'thorough']
+    qs = [q for q in mod.QUERIES if q.tier == 'quick' or (tier == 'thorough' and q.tier == 'thorough') or (a.only and q.tier not in ('quick', 'thorough') and tier == 'thorough')]
     if a.only: qs = [q for q in qs if re.search(a.only, q.name)]
     shutil.rmtree(bdir_root, ignore_errors=True); os.makedirs(bdir_root, exist_ok=True)
     shutil.rmtree(os.path.join(VERIF, 'evidence', 'replay'), ignore_errors=True) if False else None
